@@ -68,27 +68,21 @@ def groups_for(ctx):
         g['key'] = G.make_key(rng, g['kind'])
         g['att'] = G.make_key(rng, 'stake' if 'stake' in g['kind'] else 'pay')      # the attacker: an ordinary key of the same family
         g['seed'] = rng.getrandbits(64)
-    # forgery through the >32-byte key branch (signature re-split), one per key kind
-    for k in G.KINDS:
-        key = G.make_key(rng, k)
-        gs.append(dict(kind=k, attach=True, net=0, msg=None, flips=0, key=key, att=G.make_key(rng, 'pay'), seed=rng.getrandbits(64),
-                       forgery=make_forgery_plan(key)))
-    for g in gs:
-        if g.get('forgery'):
-            g['msg'] = g['forgery']['m0']
-    return gs
+    # corpus (always first): forgery through the >32-byte key branch (signature re-split), one per key kind
+    corpus = json.load(open(os.path.join(C.VERIF, 'corpus', 'C19.json')))
+    first = []
+    for e in corpus['forgery_keys']:
+        key = {'kind': e['kind'], 'sk': e['sk'], 'vk': bytes.fromhex(e['vk'])}
+        plan = make_forgery_plan(key, bytes.fromhex(e['cc']))
+        first.append(dict(kind=e['kind'], attach=True, net=0, msg=plan['m0'], flips=0, key=key, att=G.make_key(rng, 'pay'),
+                          seed=rng.getrandbits(64), forgery=plan))
+    return first + gs
 
 
-def make_forgery_plan(key):
+def make_forgery_plan(key, cc):
     pk = key['vk']
-    n = 0
-    while True:
-        cc = n.to_bytes(32, 'big'); n += 1
-        h = G.H28(pk + cc)
-        try:
-            h.decode('utf-8'); break
-        except UnicodeDecodeError:
-            pass
+    h = G.H28(pk + cc)
+    h.decode('utf-8')                               # corpus invariant: the credential is valid UTF-8
     ph = cenc(Pairs([(1, -8), (T(b'address'), bytes([0x60]) + h), (T(b'x'), T(b'p' * 100)), (T(b'y'), T(b'p' * 60))]))
     assert 0xc2 <= len(ph) <= 0xdf
     payload2 = b'I owe Mallory 1000000 ADA'
@@ -189,6 +183,8 @@ def variants_of(g, signed, rng):
     add('neutral', 'prot-not-bytes', mk_sm(5, uhdr, payload, sig))
     add('neutral', 'prot-empty', mk_sm(b'', uhdr, payload, sig))
     add('neutral', 'sig-not-bytes', mk_sm(prot, uhdr, payload, 5))
+    if len(payload) > 256:
+        return out                                   # long messages: the header/key families below do not depend on the payload
     # ---- messages validly signed by K itself with other (legal) headers
     def signed_by_K(what, ps, key2=None, uh=uhdr, cls='neutral'):
         p = cenc(Pairs(ps)) if not isinstance(ps, bytes) else ps
@@ -285,46 +281,50 @@ def render_shard(g, gi, signed, chunk, first, answers):
     key = None if signed['key'] is None else bytes.fromhex(signed['key'])
     K = g['key']
     m = g['msg'].encode('utf-8')
-    body = [f'Definition B : bytes := {G.chx(sm)}.', f'Definition K : option bytes := {G.copt_hx(key)}.',
-            f'Definition M : bytes := {G.chx(m)}.']
-    tp = [] if K['kind'].startswith('x') else [(bytes.fromhex(K['sk']), K['vk'])]
+    vk = K['vk']
+    exp_ps = [(1, -8), (T(b'address'), G.addr_bytes(K, g['net']))] + ([] if g['attach'] else [(4, vk)])
+    exp_prot = cenc(Pairs(exp_ps))
+    tbs = G.sig_structure(exp_prot, m)                 # the harness's own expectation of the signed bytes
+    bases = [('B', sm), ('M', m), ('VK', vk), ('TBS', tbs), ('HK', G.H28(vk)), ('SK', bytes.fromhex(K['sk']))]
+    try:
+        sig0 = cdec(sm, 0)[0][3]
+        if type(sig0) is bytes and len(sig0) >= 8:
+            bases.append(('SIG', sig0))
+    except Exception:
+        pass
+    if key is not None:
+        bases.append(('KB', key))
+    body = [f'Definition {n} : bytes := {G.chx(b)}.' for n, b in bases]
+    body.append('Definition K : option bytes := ' + ('None' if key is None else '(Some KB)') + '.')
+    L = G.Lits(bases)
+    tp = [] if K['kind'].startswith('x') else [(bytes.fromhex(K['sk']), vk)]
     items = []
     for li, v, o in chunk:
         qs, vks = G.predict_queries(v['sm'], v['key'])
-        tv = [(vk, mm, s, answers[(vk, mm, s)]) for vk, mm, s in qs]
-        th = [(vk, G.H28(vk)) for vk in vks]
-        tb = []
-        for txt in v.get('texts', []):
-            tb.append(txt)
+        tv = [(a, mm, s, answers[(a, mm, s)]) for a, mm, s in qs]
+        th = [(a, G.H28(a)) for a in vks]
         if v['cls'] == 'orig':
-            cls = f'(VOrig {G.r_skey(K)} {G.r_net(g["net"])} M {G.r_tf(tp)})'
-            th = th + [(K['vk'], G.H28(K['vk']))] if K['vk'] not in vks else th
+            cls = f'(VOrig {L.skey(K)} {G.r_net(g["net"])} M {L.tf(tp)})'
+            if vk not in vks:
+                th = th + [(vk, G.H28(vk))]
         else:
             cls = 'VTamper' if v['cls'] == 'tamper' else 'VNeutral'
-        if v['flip'] is not None:
-            smx = f'(flip B {v["flip"][0]}%nat {v["flip"][1]})'
-        elif v['sm'] == sm:
-            smx = 'B'
-        else:
-            smx = G.chx(v['sm'])
-        kx = 'K' if v['key'] == key else G.copt_hx(v['key'])
-        items.append(f'({li}%nat, mkV {smx} {kx} {G.r_tv(tv)} {G.r_tf(th)} {G.r_tb(text_table(v))} {cls} {G.r_out(o, {m.hex(): "M"})})')
+        kx = 'K' if v['key'] == key else L.opt(v['key'])
+        items.append(f'({li}%nat, mkV {L.hx(v["sm"])} {kx} {L.tv(tv)} {L.tf(th)} {L.tb(text_table(v))} {cls} {L.out(o)})')
     body.append('Definition vcases : list (nat * vcase) :=\n[' + ';\n '.join(items) + '].')
     sitems = []
     if first:
-        vk = K['vk']
-        ps = [(1, -8), (T(b'address'), G.addr_bytes(K, g['net']))] + ([] if g['attach'] else [(4, vk)])
-        tbs = G.sig_structure(cenc(Pairs(ps)), m)
         sg = G.ref_sign(K, tbs)
         skb = bytes.fromhex(K['sk'])
         ts = [] if K['kind'].startswith('x') else [(skb, tbs, sg)]
         tx = [(skb[:64], tbs, sg)] if K['kind'].startswith('x') else []
-        sitems.append(f'(0%nat, mkS {G.r_skey(K)} {G.r_net(g["net"])} {C.cbool(g["attach"])} M {G.r_tf(tp)} {G.r_ts(ts)} {G.r_ts(tx)} '
-                      f'{G.r_tf([(vk, G.H28(vk))])} B K)')
+        sitems.append(f'(0%nat, mkS {L.skey(K)} {G.r_net(g["net"])} {C.cbool(g["attach"])} M {L.tf(tp)} {L.ts(ts)} {L.ts(tx)} '
+                      f'{L.tf([(vk, G.H28(vk))])} B K)')
     body.append('Definition scases : list (nat * scase) := [' + '; '.join(sitems) + '].')
-    body.append('Eval vm_compute in (map fst (filter (fun c => negb (c19_corr (snd c))) vcases)).')
-    body.append('Eval vm_compute in (map fst (filter (fun c => negb (c19_oracle (snd c))) vcases)).')
-    body.append('Eval vm_compute in (map fst (filter (fun c => c19_miss (snd c)) vcases)).')
+    body.append('Definition flags := Eval vm_compute in (map (fun c => (fst c, c19_flags (snd c))) vcases).')
+    body.append('Eval vm_compute in (map fst (filter (fun c => fst (fst (snd c))) flags)).')
+    body.append('Eval vm_compute in (map fst (filter (fun c => snd (fst (snd c))) flags)).')
+    body.append('Eval vm_compute in (map fst (filter (fun c => snd (snd c)) flags)).')
     body.append('Eval vm_compute in (map fst (filter (fun c => negb (c19_sign_corr (snd c))) scases)).')
     return '\n'.join(body) + '\n'
 
